@@ -586,7 +586,14 @@ func (e *Engine) forStmt(s *ast.ForStmt, in []*State) []*State {
 		out = e.stmt(s.Post, out)
 	}
 	if e.Reporting() {
-		for _, st := range out {
+		// a back edge is a path that goes round again: states that fail the loop condition leave the loop instead
+		back := out
+		if s.Cond != nil {
+			e.quiet++
+			back, _ = e.cond(s.Cond, out)
+			e.quiet--
+		}
+		for _, st := range back {
 			e.Client.LoopBack(e, st, s)
 		}
 	}
@@ -1338,8 +1345,12 @@ func (e *Engine) assign1(lhs, rhs []ast.Expr, tok token.Token, stmt ast.Stmt, in
 	simple := tok == token.ASSIGN || tok == token.DEFINE
 	// b := <compound boolean expression>: the two outcomes are kept apart, so a later `if b` knows what held
 	if simple && len(lhs) == 1 && len(rhs) == 1 && e.compoundBool(rhs[0]) {
-		if id, ok := ast.Unparen(lhs[0]).(*ast.Ident); ok && id.Name != "_" {
-			if o := objOf(e.Info, id); o != nil && !e.noFacts[o] {
+		if id, isId := ast.Unparen(lhs[0]).(*ast.Ident); !isId || id.Name != "_" {
+			var o types.Object
+			if isId {
+				o = objOf(e.Info, id)
+			}
+			if !isId || (o != nil && !e.noFacts[o]) {
 				t, f := e.cond(rhs[0], in)
 				in = e.lhsSub(lhs[0], append(t, f...))
 				nt := len(t)
